@@ -1316,6 +1316,7 @@ private:
         if (quote_style_ == quote_style_kind::all || quote_style_ == quote_style_kind::nonnumeric ||
             (quote_style_ == quote_style_kind::minimal &&
             (std::char_traits<CharT>::find(s, length, field_delimiter_) != nullptr || std::char_traits<CharT>::find(s, length, quote_char_) != nullptr ||
+             std::char_traits<CharT>::find(s, length, quote_escape_char_) != nullptr ||
              std::char_traits<CharT>::find(s, length, '\n') != nullptr || std::char_traits<CharT>::find(s, length, '\r') != nullptr)))
         {
             quote = true;
